@@ -1,6 +1,8 @@
 package main
 
 import (
+	"os"
+	"runtime/debug"
 	"bytes"
 	"fmt"
 	"go/ast"
@@ -71,6 +73,9 @@ type CloV struct {
 	Fn    *ssa.Function
 	Binds []Val
 	ID    Term
+	// Targs: type arguments of the (instantiated generic) function that built
+	// the closure; its body is the generic one and needs them
+	Targs map[string]types.Type
 }
 
 // ---------------------------------------------------------------------------
@@ -247,6 +252,9 @@ type Obligation struct {
 type unsupportedErr struct{ msg string }
 
 func unsupported(format string, args ...interface{}) {
+	if os.Getenv("VERIF_TRACE_UNSUPPORTED") != "" {
+		fmt.Fprintf(os.Stderr, "unsupported: %s\n%s\n", fmt.Sprintf(format, args...), debug.Stack())
+	}
 	panic(unsupportedErr{fmt.Sprintf(format, args...)})
 }
 
@@ -349,6 +357,17 @@ func isUnsigned(t types.Type) bool {
 
 // sortOf maps a Go type to the sort of its scalar representation.
 func (x *Exec) sortOf(t types.Type) Sort {
+	if tp, ok := t.(*types.TypeParam); ok {
+		// inside an inlined instantiation the type argument is known
+		if x.curCfg != nil && len(x.curCfg.frames) > 0 {
+			if ta, ok := x.curCfg.top().targs[tp.Obj().Name()]; ok {
+				if _, again := ta.(*types.TypeParam); !again {
+					return x.sortOf(ta)
+				}
+			}
+		}
+		return SInt
+	}
 	switch u := t.Underlying().(type) {
 	case *types.Basic:
 		switch {
@@ -588,7 +607,7 @@ func (x *Exec) zeroTerm(t types.Type) Term {
 		// argument is known: its zero value is concrete (nil for pointers...)
 		if x.curCfg != nil && len(x.curCfg.frames) > 0 {
 			if ta, ok := x.curCfg.top().targs[tp.Obj().Name()]; ok {
-				if _, again := ta.(*types.TypeParam); !again && x.sortOf(ta) == SInt {
+				if _, again := ta.(*types.TypeParam); !again {
 					return x.zeroTerm(ta)
 				}
 			}
